@@ -154,7 +154,7 @@ def _hist_subsearches():
         # types with dependencies: every order of the same calls must leave the same directory (C06), in particular
         # export(T) before export_all(T) must not stop the dependencies from being exported
         for h in ([['export', 'C'], ['export_all', 'C']], [['export', 'D'], ['export_all', 'D']], [['export', 'A'], ['export_all', 'C']],
-                  [['export_all_to', 'C', 'bindings'], ['export_all', 'D']], [['export_all', 'W1'], ['export_all', 'W2']], [['export', 'W2'], ['export', 'W1']]):
+                  [['export_all_to', 'C', 'bindings'], ['export_all', 'D']], [['export', 'C'], ['export_all', 'D']], [['export_all', 'W1'], ['export_all', 'W2']], [['export', 'W2'], ['export', 'W1']]):
             a = run_history(h)
             b = run_history(list(reversed(h)))
             if a.get('files') != b.get('files'):
@@ -166,12 +166,15 @@ def _hist_subsearches():
         # the import block of a file: one line per other file, names ascending and separated by `, `, specifier relative to the importing file
         for root, f, lines in (('W2', 'bindings/views.ts', ['import type { P1, P3 } from "./deps";']),
                                ('C', 'bindings/C.ts', ['import type { A, B } from "./shared";']),
-                               ('D', 'bindings/nested/dir/D.ts', ['import type { C } from "../../C";'])):
-            got = run_history([['export_all', root]])
+                               ('D', 'bindings/nested/dir/D.ts', ['import type { C } from "../../C";']),
+                               (['CA', 'CB'], 'bindings/client/types.ts', ['import type { P1 } from "../deps";', 'import type { RF } from "../replies from server/reply";']),
+                               (['CB', 'CA'], 'bindings/client/types.ts', ['import type { P1 } from "../deps";', 'import type { RF } from "../replies from server/reply";'])):
+            roots = root if isinstance(root, list) else [root]
+            got = run_history([['export_all', r_] for r_ in roots])
             txt = got.get('files', {}).get(f)
             have = [l for l in (txt or '').split('\n') if l.startswith('import ')]
             if txt is None or have != lines:
-                return {'request': {'op': 'export_history', 'steps': [['export_all', root]]}, 'result': {'files': got.get('files'), 'results': got.get('results'),
+                return {'request': {'op': 'export_history', 'steps': [['export_all', r_] for r_ in roots]}, 'result': {'files': got.get('files'), 'results': got.get('results'),
                         'expected_import_lines': {f: lines}, 'agree': False}, 'kind': 'history-imports', 'file': f, 'lines': lines}
     subs.append((('C04', 'C08', 'C13'), import_lines))
 
@@ -191,6 +194,18 @@ def _hist_subsearches():
             return {'request': {'op': 'export_history', 'steps': [['export_all', 'D']], 'env_dir': 'elsewhere'}, 'result': {'files': got.get('files'), 'results': got.get('results'),
                     'expected_files': exp2, 'agree': False}, 'kind': 'history'}
     subs.append((('C06', 'C11'), explicit_dir))
+
+    def env_change():
+        # TS_RS_EXPORT_DIR is read when an export happens: after it changes, exports go to the new directory
+        a = run_history([['export_all', 'A']], env_dir='first').get('files', {})
+        b = run_history([['export_all', 'B']], env_dir='second').get('files', {})
+        exp = dict(a); exp.update(b)
+        steps = [['export_all', 'A'], ['setenv', 'second'], ['export_all', 'B']]
+        got = run_history(steps, env_dir='first')
+        if got.get('files') != exp:
+            return {'request': {'op': 'export_history', 'steps': steps, 'env_dir': 'first'}, 'result': {'files': got.get('files'), 'results': got.get('results'),
+                    'expected_files': exp, 'agree': False, 'note': 'A is exported while TS_RS_EXPORT_DIR=first, B after it was changed to second'}, 'kind': 'history'}
+    subs.append((('C06', 'C11'), env_change))
 
     def reach():
         # every exportable type reachable from the root gets its file, also when it is reachable only through the arguments of a
@@ -249,6 +264,19 @@ def _hist_subsearches():
                 return {'request': {'op': 'export_history', 'steps': h}, 'result': {'files': got.get('files'), 'results': res, 'expected_files': want(), 'agree': False,
                         'note': 'step 3 must fail with an error (target is a directory), the retry (step 5) must succeed and leave both declarations'}, 'kind': 'history'}
     subs.append((('C05', 'C17'), faults))
+
+    def faults_deep():
+        # the obstacle sits two levels below the root (D -> C -> A, B in shared.ts): the first export_all fails there; after the
+        # obstacle is removed, repeating it gives the directory of a history without failure
+        ref = run_history([['export_all', 'D']]).get('files', {})
+        h = [['hide', 'bindings/shared.ts'], ['export_all', 'D'], ['restore', 'bindings/shared.ts'], ['export_all', 'D']]
+        got = run_history(h)
+        res = got.get('results', [])
+        ok = len(res) == 4 and isinstance(res[1], dict) and 'err' in res[1] and res[3] == 'ok'
+        if not ok or got.get('files') != ref:
+            return {'request': {'op': 'export_history', 'steps': h}, 'result': {'files': got.get('files'), 'results': res, 'expected_files': ref, 'agree': False,
+                    'note': 'step 2 must fail with an error (shared.ts is a directory), the retry (step 4) must succeed and leave the same files as one export_all(D) without failure'}, 'kind': 'history'}
+    subs.append((('C17',), faults_deep))
 
     def again():
         # repeated export is a no-op
@@ -374,6 +402,29 @@ SPEAKS_FOR = {'search_templates': ('C04', 'C11', 'C15'), 'search_attrs': ('C09',
               'search_export_history': ('C04', 'C05', 'C06', 'C11', 'C13', 'C15', 'C17')}
 
 
+def run_named(spec):
+    """A registered bounded stand-in (units.json `bounded_standins`): `hist:<sub-search>` or `op:<replay op>`. Returns a witness or None."""
+    kind, name = spec.split(':', 1)
+    if kind == 'probe':
+        ok, text, errs = natives.build_probe()
+        if ok:
+            return None
+        # the probe only speaks when the crate itself still builds (otherwise the change does not compile at all)
+        natives.build_replay()
+        return {'request': {'op': 'probe_build', 'crate': 'replay/probe'}, 'result': {'errors': errs, 'compiler_output_tail': text[-3000:], 'agree': False,
+                'expected': 'every item of replay/probe/src/lib.rs is a valid input of the derive: the crate has to compile'}, 'kind': 'probe'}
+    if kind == 'hist':
+        for props, thunk in _hist_subsearches():
+            if thunk.__name__ == name:
+                return thunk()
+        raise KeyError(name)
+    o = batch([{'op': name}])[0]
+    for c in o.get('cases', []):
+        if not c.get('agree', True):
+            return {'request': {'op': name}, 'result': c}
+    return None
+
+
 def search_standin(pid, unit):
     """Bounded stand-in for a unit the verifier could not take after a change: the same searches on the real code, restricted to
     the oracles that speak for `pid`. Returns a witness or None."""
@@ -385,6 +436,10 @@ def search_standin(pid, unit):
 
 def rerun(rec):
     w = rec['witness']
+    if w.get('kind') == 'probe':
+        ok, text, errs = natives.build_probe()
+        print('compile probe on the current tree:', 'builds' if ok else errs)
+        return 0 if ok else 1
     if w.get('kind') == 'history-files':
         got = run_history(w['request']['steps'])
         have = sorted(got.get('files', {}).keys())
